@@ -6,6 +6,7 @@ CONSTANTS MaxSteps = 2
           Edits = FALSE
           Pairs = "no"
           Extend = FALSE
+          Mech = TRUE
 INIT Init
 NEXT NextGen
 INVARIANT PoolUntouched
